@@ -39,7 +39,8 @@ def run(rep):
     rep.set('rule', 'an execution = one schedule of one scenario; distinct = distinct observable outcome per scenario; the delay clause is '
             'checked by comparing virtual delivery times of the default schedule with and without the listeners')
 
-    explore.explore(rep, 'family-d1', fam, 1, bases, 'checks.oracles:oracle_c05', budget_s=900)
+    explore.explore(rep, 'family-d1', [s for s in fam if not s.get('timing_only')], 1, bases, 'checks.oracles:oracle_c05', budget_s=900)
+    explore.explore(rep, 'jumping-join-d1', [s for s in fam if s.get('timing_only')], 1, bases, 'checks.oracles:oracle_c05_integrity', budget_s=900)
 
     # two deviations for the consumers that mix a multi-topic ephemeral source with a synchronized one (a partial ephemeral set has to
     # stay partial across the blocking poll and the non-blocking re-check that follows it)
@@ -53,7 +54,21 @@ def run(rep):
     for name, base, t_with, t_bare in common.pmap(_timing, items):
         ndiff += 1
 
-        if t_with != t_bare:
+        scn_ = next(s for s in fam if s['name'] == name)
+
+        if scn_.get('timing_only'):
+            # which frames the jumping branch delivers is a race even without listeners: only "not later" is demanded, per delivery
+            # that both runs have (half a poll interval of tolerance), and "not fewer deliveries"
+            bare = {(f, i): t for f, i, t in t_bare}
+            late = [(f, i, t, bare[(f, i)]) for f, i, t in t_with if (f, i) in bare and t > bare[(f, i)] + 50]
+
+            if late or len(t_with) < len(t_bare) - 2:
+                rep.violation(f'C05/delays-sync-stream/{name.split("/")[0]}',
+                              f'[{name}] default schedule ({base}): ' + (f'synchronized delivery {late[0][:2]} happens at {late[0][2]} ms with the listeners and at {late[0][3]} ms without'
+                                                                         if late else f'{len(t_with)} synchronized deliveries with the listeners, {len(t_bare)} without'),
+                              {'kind': 'e1-timing', 'scn': scn_, 'base': base})
+
+        elif t_with != t_bare:
             k = next((i for i, (a, b) in enumerate(zip(t_with, t_bare)) if a != b), min(len(t_with), len(t_bare)))
             rep.violation(f'C05/delays-sync-stream/{name.split("/")[0]}',
                           f'[{name}] default schedule ({base}): synchronized delivery #{k} happens at {t_with[k] if k < len(t_with) else None} '
